@@ -169,6 +169,25 @@ func TestC07(t *testing.T) {
 
 	r.Rapid("random", kit.Pick(15000, 400000), func(rt *rapid.T) {
 		st := gen.SchemaDocTree().Draw(rt, "sdl")
+		// extensions of types nothing defines are outside the domain: mostly retarget them at a
+		// defined name (of any kind: a kind mismatch is one of the rules) so that the verdict is decided
+		var defined []string
+		for _, d := range st.Doc.Defs {
+			defined = append(defined, d.Name)
+		}
+		for _, e := range st.Doc.Exts {
+			has := false
+			for _, n := range defined {
+				if n == e.Name {
+					has = true
+				}
+			}
+			if !has && len(defined) > 0 && rapid.IntRange(0, 9).Draw(rt, "retarget") != 0 {
+				e.Name = rapid.SampledFrom(defined).Draw(rt, "base")
+			} else if !has && rapid.Bool().Draw(rt, "builtinbase") {
+				e.Name = rapid.SampledFrom([]string{"String", "__Type", "__TypeKind", "Int"}).Draw(rt, "builtin")
+			}
+		}
 		text := renderSchemaTree(st, gen.Canon)
 		c := schemaCase{Sources: []srcText{{"s.graphql", text}}}
 		r.Begin("random", func() interface{} { return c })
